@@ -496,3 +496,8 @@ fn extract_sections<'a>(
         }
     }
 }
+
+#[cfg(kani)]
+mod verif_kani {
+    include!(concat!(env!("PACAK_BPAF_VERIF_DIR"), "/kani/buffer.rs"));
+}
